@@ -29,7 +29,7 @@ def handle (req : Sexp) : Sexp :=
     | some a, some b =>
       let ka := hashKey T a
       let kb := hashKey T b
-      .list [Sexp.ofBool (eqV T a b), Sexp.ofBool (ka == kb), Sexp.ofBool (lawful T a),
+      .list [Sexp.ofBool (eqV T a b), Sexp.ofBool (keyEqv ka kb), Sexp.ofBool (lawful T a),
              Sexp.ofBool (hashable ka), Sexp.ofBool (hashable kb)]
     | _, _ => bad
   | .list [.atom "classes"] =>
